@@ -580,6 +580,11 @@ func cmdReplay(args []string) int {
 	}
 	run, herr := ExecOnce(e, p, props, known, *trace)
 	if herr != nil {
+		if *trace && run != nil {
+			for _, l := range run.Trace {
+				fmt.Println(l)
+			}
+		}
 		fmt.Fprintln(os.Stderr, "HARNESS-ERROR: harness panic:", herr)
 		return ExitHarness
 	}
